@@ -617,6 +617,11 @@ def validate_usm_message(message: PlainMessage) -> None:
 
     :raises SnmpError: If an error was found
     """
+    if not isinstance(message.scoped_pdu.data, Report):
+        # The usmStats counters are ordinary objects of the remote device. In
+        # a normal response they are data (f.ex. the answer to a GET on that
+        # very counter), only a report uses them as error indication.
+        return
     pdu = message.scoped_pdu.data.value
     errors = {
         ObjectIdentifier(
@@ -646,12 +651,9 @@ def validate_usm_message(message: PlainMessage) -> None:
         if varbind.oid in errors:
             msg = errors[varbind.oid]
             raise SnmpError(f"Error response from remote device: {msg}")
-    if isinstance(message.scoped_pdu.data, Report):
-        # A report is never the answer to a request. It must not be handed
-        # out as if it were data (it may not even be authenticated).
-        raise SnmpError(
-            "Unexpected report from remote device: %r" % (pdu.varbinds,)
-        )
+    # A report is never the answer to a request. It must not be handed out as
+    # if it were data (it may not even be authenticated).
+    raise SnmpError("Unexpected report from remote device: %r" % (pdu.varbinds,))
 
 
 def create() -> UserSecurityModel:
